@@ -200,7 +200,8 @@ class NamedGlob:
 
     @_regex.default
     def _default_regex(self) -> re.Pattern[str]:
-        return re.compile(convert_nglob_to_regex(self._pattern, self._subs))
+        # DOTALL: a recursive wildcard also matches a newline in a file name.
+        return re.compile(convert_nglob_to_regex(self._pattern, self._subs), re.DOTALL)
 
     @property
     def pattern(self) -> str:
